@@ -41,7 +41,7 @@ impl LuaEngine {
         let result = lua.load(script).eval::<LuaValue>();
         
         match result {
-            Ok(value) => Ok(self.lua_value_to_resp(value)),
+            Ok(value) => self.lua_value_to_resp(value, 0),
             Err(e) => {
                 match e {
                     mlua::Error::RuntimeError(ref msg) => {
@@ -363,8 +363,13 @@ impl LuaEngine {
         Ok(())
     }
     
-    fn lua_value_to_resp(&self, value: LuaValue) -> RespFrame {
-        match value {
+    /// Convert the value a script returns to a reply. Tables nest, and a table can hold
+    /// itself (`t[1] = t`): beyond MAX_REPLY_NESTING tables inside each other the script's
+    /// reply is an error, instead of a recursion that ends with the stack
+    fn lua_value_to_resp(&self, value: LuaValue, depth: usize) -> Result<RespFrame> {
+        const MAX_REPLY_NESTING: usize = 128;
+        
+        Ok(match value {
             LuaValue::Nil => RespFrame::BulkString(None),
             LuaValue::Boolean(b) => {
                 if b {
@@ -389,9 +394,13 @@ impl LuaEngine {
                 RespFrame::BulkString(Some(Arc::new(s.as_bytes().to_vec())))
             }
             LuaValue::Table(table) => {
+                if depth >= MAX_REPLY_NESTING {
+                    return Err(FerrousError::LuaError("ERR reached lua stack limit".to_string()));
+                }
+                
                 // An error table {err = message}, as redis.pcall returns it, is an error reply
                 if let Ok(LuaValue::String(msg)) = table.raw_get::<LuaValue>("err") {
-                    return RespFrame::error(msg.as_bytes().to_vec());
+                    return Ok(RespFrame::error(msg.as_bytes().to_vec()));
                 }
                 
                 // Convert Lua table to Redis array
@@ -399,7 +408,7 @@ impl LuaEngine {
                 for i in 1.. {
                     match table.get::<LuaValue>(i) {
                         Ok(LuaValue::Nil) => break,
-                        Ok(value) => items.push(self.lua_value_to_resp(value)),
+                        Ok(value) => items.push(self.lua_value_to_resp(value, depth + 1)?),
                         Err(_) => break,
                     }
                 }
@@ -408,7 +417,7 @@ impl LuaEngine {
                 RespFrame::Array(Some(items))
             }
             _ => RespFrame::BulkString(None),
-        }
+        })
     }
     
     pub fn calculate_script_sha1(&self, script: &str) -> String {
